@@ -244,7 +244,7 @@ def run(ctx):
         for name, keys in need.items():
             cnt = (h.get(name) or {}).get("counters") or {}
             for k in keys:
-                if cnt.get(k, 0) < 3:
+                if cnt.get(k, 0) < (1 if name == "realparams" else 3):
                     ctx.broken("harness %s exercised %s only %d times" % (name, k, cnt.get(k, 0)))
     return ctx.finish(
         level="model_checking",
